@@ -553,18 +553,18 @@ def check(run):
                 "generated __init__; (R18d) each staged retry of the union is guarded so that it is skipped when the "
                 "current options already include the stage's flags (truth table over the guard), child contexts use "
                 "the stage's options, and a final unconditional stage exists.")
-    r18a(run)
-    r18b(run)
-    r18c(run)
-    r18d(run)
-    r18e(run)
-    r18f(run)
-    r18g(run)
-    r18h(run)
-    r18i(run)
-    r18j(run)
+    run.rule(r18a, run)
+    run.rule(r18b, run)
+    run.rule(r18c, run)
+    run.rule(r18d, run)
+    run.rule(r18e, run)
+    run.rule(r18f, run)
+    run.rule(r18g, run)
+    run.rule(r18h, run)
+    run.rule(r18i, run)
+    run.rule(r18j, run)
     # shared with C10: with collect_errors the depth error is only recorded; the limit rejects at every position only if
     # each context owner passes raise_error() before it returns
     from . import c04, c10
     run.rules_run.append("R10b")
-    c10.r10b(run, c04.in_scope_functions(run) + list(run.repo.module("utype.parser.options").functions.values()))
+    run.rule(c10.r10b, run, c04.in_scope_functions(run) + list(run.repo.module("utype.parser.options").functions.values()))
